@@ -50,10 +50,11 @@ type c15Op struct {
 }
 
 type c15Env struct {
-	cfg      bandCfg
-	init     band.VerifBandSnapshot
-	ops      []c15Op
-	fixedIdx []int
+	refusesInverted bool
+	cfg             bandCfg
+	init            band.VerifBandSnapshot
+	ops             []c15Op
+	fixedIdx        []int
 }
 
 func (e *c15Env) addArgs(which, n int) (uint32, int, int) {
@@ -66,6 +67,12 @@ func (e *c15Env) addArgs(which, n int) (uint32, int, int) {
 		return fresh, 6, 6
 	case 2:
 		return e.init.UplinkChannels[1%len(e.init.UplinkChannels)].Frequency, 6, 6
+	case 4:
+		// a fresh frequency with an inverted data-rate range (an argument a band may refuse)
+		if e.init.CFListMaxDR > e.init.CFListMinDR {
+			return fresh, e.init.CFListMaxDR, e.init.CFListMinDR
+		}
+		return fresh, 1, 0
 	default:
 		return 0, 0, 5
 	}
@@ -101,6 +108,12 @@ func (e *c15Env) model(path []int) (*bandModel, []string) {
 				continue
 			}
 			f, lo, hi := e.addArgs(op.which, n)
+			if op.which == 4 && e.refusesInverted {
+				// the tree under check refuses such a range (probed once per band): a refused call
+				// changes nothing
+				results = append(results, "err")
+				continue
+			}
 			ch := mchan{f, lo, hi, f != 0, true}
 			m.up = append(m.up, ch)
 			m.down = append(m.down, ch)
@@ -411,7 +424,8 @@ func (e *c15Env) pathNames(path []int) []string {
 }
 
 func runC15(r *engine.Run) {
-	r.Rule = "E2 explicit-state breadth-first search per band (14 names) from the constructor state over AddChannel with four argument kinds {fresh frequency with the CFList DR range, fresh frequency 6..6, an existing standard frequency 6..6, frequency 0 (placeholder) 0..5} and Disable/Enable with index in {-1, 0, last standard, first custom, n-1, n} (fixed plans: {-1,0,7,8,15,16,63,64,71,72,95,96}); depth quick 4 / thorough 6 (fixed plans 3); canonical state = hook snapshot of both channel slices; successor = replay of the shortest path on a fresh instance + one op. The reference model (a Go slice of {freq,min,max,enabled,custom}) is stepped in lock-step: after every transition the op's error/no-error and the snapshot must equal the model; in every distinct state all observers are compared with the model (index sets and partitions, accessors with invalid indices, lookups by frequency and frequency+DR, GetCFList for 7 versions) and every frequency/DR/CFList the band produces is fed to the MAC encoders (RXParamSetupReq, NewChannelReq, DLChannelReq, PingSlotChannelReq, BeaconFreqReq, CFList in a join-accept) and decoded back."
+	r.Rule = "E2 explicit-state breadth-first search per band (14 names) from the constructor state over AddChannel with five argument kinds {fresh frequency with the CFList DR range, fresh frequency 6..6, an existing standard frequency 6..6, frequency 0 (placeholder) 0..5, fresh frequency with an inverted DR range (accepted or refused, as the band chooses: a refused call changes nothing)} and Disable/Enable with index in {-1, 0, last standard, first custom, n-1, n} (fixed plans: {-1,0,7,8,15,16,63,64,71,72,95,96}); depth quick 4 / thorough 6 (fixed plans 3); canonical state = hook snapshot of both channel slices; successor = replay of the shortest path on a fresh instance + one op. The reference model (a Go slice of {freq,min,max,enabled,custom}) is stepped in lock-step: after every transition the op's error/no-error and the snapshot must equal the model; in every distinct state all observers are compared with the model (index sets and partitions, accessors with invalid indices, lookups by frequency and frequency+DR, GetCFList for 7 versions) and every frequency/DR/CFList the band produces is fed to the MAC encoders (RXParamSetupReq, NewChannelReq, DLChannelReq, PingSlotChannelReq, BeaconFreqReq, CFList in a join-accept) and decoded back."
+	bandConstructionStability(r)
 	r.Assume("canonical state = both channel slices: every band method reads only these plus tables that are immutable after construction (argued in DESIGN.md A.2), so equal snapshots have equal futures")
 	r.Assume("a custom channel with frequency 0 placed first makes the library offer no CFList at all; the property does not define that case: recorded, not judged")
 	r.Assume("depth-bounded: 4 (quick) / 6 (thorough) operations; the five-entry CFList cap needs 6 additions and is reached in the thorough tier and by a directed deep history in both tiers; histories of 32 (thorough 36) operations are explored with a bounded number of deviations from two spines (deep-deviations)")
@@ -424,9 +438,14 @@ func runC15(r *engine.Run) {
 			depth = 6
 		}
 		if env.init.SupportsExtraChannels {
-			for w := 0; w < 4; w++ {
+			for w := 0; w < 5; w++ {
 				env.ops = append(env.ops, c15Op{name: fmt.Sprintf("Add#%d", w), kind: "add", which: w})
 			}
+			// whether AddChannel takes an inverted data-rate range is the band's choice; what the
+			// property fixes is that a refused call leaves the plan as it was
+			probe := newBand(cfg)
+			f, lo, hi := env.addArgs(4, len(env.init.UplinkChannels))
+			env.refusesInverted = probe.AddChannel(f, lo, hi) != nil
 			for w := 0; w < 6; w++ {
 				env.ops = append(env.ops, c15Op{name: "Disable", kind: "disable", which: w}, c15Op{name: "Enable", kind: "enable", which: w})
 			}
